@@ -178,6 +178,9 @@ def parse_file(path):
                 if d in ('loop_end', 'loop_start'):
                     parts = anchor.split()
                     loopn = int(parts[0])
+                    m3 = TAG_RE.match(' '.join(parts[1:]))
+                    if m3 and not tags:
+                        tags = _tags(m3.group(1))
                     anchor = ''
                 curins = Insert(d, anchor, tags, origin, loopn)
                 cur.inserts.append(curins)
